@@ -48,6 +48,14 @@ class ToolError(Exception):
     pass
 
 
+class HangDetected(Exception):
+    """A call into the code under test did not return within the harness's limit (record printed by the watchdog)."""
+    def __init__(self, record, args):
+        Exception.__init__(self, "code under test did not return: %s" % json.dumps(record))
+        self.record = record
+        self.harness_args = [str(a) for a in args]
+
+
 def log(*a):
     print("[verif]", *a, file=sys.stderr, flush=True)
 
@@ -287,6 +295,13 @@ def run_harness(args, timeout=900, stdin_path=None, env=None, capture=True):
     finally:
         if stdin:
             stdin.close()
+    if p.returncode == 3:
+        for line in p.stderr.splitlines():
+            if line.startswith("{") and '"hang"' in line:
+                try:
+                    raise HangDetected(json.loads(line), args)
+                except ValueError:
+                    pass
     if p.returncode != 0:
         sys.stderr.write(p.stderr[-4000:])
         raise ToolError("harness failed (%d): %s" % (p.returncode, " ".join(map(str, args))))
@@ -300,6 +315,9 @@ def run_harness(args, timeout=900, stdin_path=None, env=None, capture=True):
         except ValueError:
             pass
     log("harness %s: %.1fs, %d records" % (" ".join(map(str, args[:3])), time.time() - t0, len(out)))
+    for r in out:
+        if r.get("rec") == "hang":
+            raise HangDetected(r, args)
     return out
 
 
